@@ -282,10 +282,12 @@ def check(prog, rep, tier):
             sub = lambda e: mapx(strip_epochs(e), lambda n: ("W",) if n == strip_epochs(wv) else (("D",) if n == strip_epochs(dv) else None))  # noqa: E731
             cons = (canon(sub(p.fields.get((SELF, "_CountMinSketch__confidence"), C(None)))), canon(sub(p.fields.get((SELF, "_CountMinSketch__error_rate"), C(None)))))
             break
-    if cons is None:
-        raise AnalysisError("C05: constructor path from (width, depth) not found")
     okg = True
-    for (rc, rn) in (("CountMinSketch", "frombytes"), ("CountMinSketch", "__load")):
+    if cons is None:
+        rep.bad("C05.derived-geometry", "CountMinSketch.__init__", "no construction from (width, depth)", "no constructor path stores the given width and depth: a loaded sketch cannot agree with a constructed one", init.where())
+        okg = False
+        cons = (None, None)
+    for (rc, rn) in (("CountMinSketch", "frombytes"), ("CountMinSketch", "__load")) if okg else ():
         f, ps = reader_paths(prog, rc, rn)
         for p in ps:
             obj = loaded_obj(f, p)
